@@ -213,7 +213,7 @@ def run_one(i):
         open(os.path.join(S, c['file']), 'w').write(''.join(new_lines))
         if sh('/venv/bin/python -B -m py_compile %s' % os.path.join(S, c['file'])).returncode != 0:
             return dict(c_pub(c), status='skipped', why='does not compile')
-        t = sh('cd %s && /venv/bin/python -B -m pytest -q -x -p no:cacheprovider bitcoin/tests 2>&1 | tail -n 1' % S)
+        t = sh('cd %s && timeout 300 /venv/bin/python -B -m pytest -q -x -p no:cacheprovider bitcoin/tests 2>&1 | tail -n 1' % S)
         if 'passed' not in t.stdout or 'failed' in t.stdout or 'error' in t.stdout:
             return dict(c_pub(c), status='killed-by-tests', wall=round(time.time() - t0, 1))
         ran = []
